@@ -39,7 +39,7 @@ Holds(cl, t) ==
       [] cl = "C20.compose" -> \A y \in DOMAIN tr.lists :
                                   (tr.lists[y].werr = "" /\ tr.lists[y].serr = "") => tr.lists[y].whole = tr.lists[y].seq
       [] cl = "C20.valueerror" -> \A y \in DOMAIN tr.lists :
-                                  LET bogus == \E z \in DOMAIN tr.lists[y].steps : tr.lists[y].steps[z] \notin StepNames IN
+                                  LET bogus == \E z \in DOMAIN tr.lists[y].steps : tr.lists[y].steps[z] \notin ValidSteps IN
                                   /\ (bogus <=> tr.lists[y].werr = "ValueError")
                                   /\ (~bogus => tr.lists[y].serr = "")
       [] OTHER -> TRUE
@@ -57,7 +57,7 @@ Exercised(cl, t) ==
               \E s \in StepNames : F(tr, s).f1 # tr.x
       [] cl = "C20.compose" -> \E y \in DOMAIN tr.lists : tr.lists[y].werr = "" /\ tr.lists[y].serr = "" /\ Len(tr.lists[y].steps) >= 2
                                                             /\ tr.lists[y].whole # tr.x
-      [] cl = "C20.valueerror" -> \E y \in DOMAIN tr.lists : \E z \in DOMAIN tr.lists[y].steps : tr.lists[y].steps[z] \notin StepNames
+      [] cl = "C20.valueerror" -> \E y \in DOMAIN tr.lists : \E z \in DOMAIN tr.lists[y].steps : tr.lists[y].steps[z] \notin ValidSteps
       [] OTHER -> FALSE
   ELSE cl = "C20.html" /\ Len(tr.doc) >= 2 /\ Len(Visible(tr.doc)) < Cardinality(DOMAIN tr.txt)   \* some text node is invisible
 Judge == tid # 0 => (/\ \A cl \in Clauses : Holds(cl, tid) \/ PrintT(<<"FAIL", tid, cl>>)
@@ -66,7 +66,12 @@ Judge == tid # 0 => (/\ \A cl \in Clauses : Holds(cl, tid) \/ PrintT(<<"FAIL", t
 Conform == (tid # 0 /\ T(tid).kind = "text") =>
    LET tr == T(tid) IN
    ( /\ ClassSeq(tr.x) = tr.cls
-     /\ \A s \in StepNames : ClassSeq(F(tr, s).f1) = Apply(s, tr.cls) )
+     /\ \A s \in StepNames : ClassSeq(F(tr, s).f1) = Apply(s, tr.cls)
+     \* clean_text on every recorded step list (names and custom callables) is the model's fold
+     /\ \A y \in DOMAIN tr.lists :
+           LET m == CleanText(tr.cls, tr.lists[y].steps, 1) IN
+           IF m.err = "none" THEN tr.lists[y].werr = "" /\ ClassSeq(tr.lists[y].whole) = m.text
+           ELSE tr.lists[y].werr = m.err )
    \/ PrintT(<<"DRIFT", tid>>)
 Done == tid # 0 => PrintT(<<"DONE", tid>>)
 =============================================================================
